@@ -10,7 +10,9 @@ class Substitution:
     fancy bit of swapping around, making the code and filename appear to be
     different.
     """
-    def __init__(self, code: str, filename: str):
+    def __init__(self, code: str, filename: str, line_offsets=None):
         self.code = code
         self.filename = filename
+        # Where that code's lines were in its file (when it was one section)
+        self.line_offsets = dict(line_offsets or {})
         self.lines = code.split("\n")
